@@ -356,6 +356,27 @@ PROPS = {
                     "calls.polygonToCellsExperimental": 100, "calls.maxPolygonToCellsSizeExperimental": 100, "errorpath.compactCells": 5, "errorpath.polygonToCellsExperimental": 5},
         "assumptions": ["every library allocation goes through H3_MEMORY (the prefix mechanism)", "the default-allocator copy is the same source tree compiled without the prefix"],
     },
+    "C18": {
+        "sources": KIT + ["mon_C18.c"],
+        "phases": [{"name": "wtrap", "config": "plain-so", "workers": 4},
+                   {"name": "ledger", "config": "asan-alloc", "workers": 4},
+                   {"name": "tsan", "config": "tsan", "workers": 4},
+                   {"name": "threads", "config": "plain", "workers": 4}],
+        "level": "exploration",
+        "level_text": "Four monitors over one deterministic mixed program (24 API groups: indexing, disks/rings incl. pentagon fallbacks, paths, hierarchy, compaction, both polygon fills, multipolygon, edges, vertexes, strings, "
+                      "error descriptions): (1) write-trap: the library is a shared object whose writable segment (.data/.bss) is mprotect'ed read-only during the workload (single- and 4-threaded), so any store into "
+                      "library-owned static memory faults, and the segment bytes are compared before/after; (2) allocator ledger: no library allocation is live when an API call returns (the multipolygon result until destroy "
+                      "excepted); together these leave no library-owned writable memory two calls could share, independently of scheduling; (3) ThreadSanitizer with 2/4/8/16 threads and random yields/sleeps between calls: any "
+                      "report is a violation; (4) per-thread output hashes of concurrent runs equal those of the same programs run sequentially (tsan and plain builds).",
+        "level_note": "'All interleavings' cannot be enumerated at run time: (1)+(2) are schedule independent for the executed paths, (3)+(4) cover what actually ran concurrently (the evidence lists which API pairs were observed overlapping in time).",
+        "technique": "runtime monitoring: write-protection trap on the library's static data, allocator ledger, ThreadSanitizer, and concurrent-vs-sequential output comparison",
+        "evaluations": ["programs"],
+        "rule": "a case is one program (seeded sequence of 150-2000 steps, ~25 API calls each) run under one monitor. Non-trivial = every program; distinct by (seed, thread count). api_calls counts library calls; overlap.pair.XX_YY "
+                "counts observations of API group XX starting while another thread was inside group YY.",
+        "require": {"programs": 200, "api_calls": 1000000, "wtrap.protected_runs": 4, "ledger.api_returns_checked": 100000, "runs.threads_16": 4, "runs.threads_02": 4, "overlap.observations": 100000,
+                    "calls.polygonToCells": 1000, "calls.cellsToLinkedMultiPolygon": 500, "calls.compactCells": 5000},
+        "assumptions": ["memory obtained from libc (malloc) is the only other writable memory the library can reach; the ledger covers it", "TSan reports nothing it cannot see: libc internals are uninstrumented"],
+    },
     "C19": {
         "sources": KIT + ["mon_C19.c"],
         "phases": simple("mon_C19.c"),
